@@ -1,5 +1,7 @@
 """A-FITS: assumed contract of astropy.io.fits used by the FITS region reader/writer"""
 import vprim
+import os
+from externals.os_model import files
 
 
 class BinTableHDU:
@@ -10,12 +12,10 @@ class BinTableHDU:
 
     def writeto(self, filename, overwrite=False, **kwargs):
         """raises OSError before touching an existing file unless overwrite"""
-        vprim.event('fs', op='fits.writeto', path=filename, overwrite=overwrite, table=self._table)
-        fs = vprim.ghost().setdefault('files', {})
-        import os
         if os.path.exists(filename) and not overwrite:
             raise OSError('File ' + str(filename) + ' already exists.')
-        fs[filename] = self
+        vprim.event('fs', op='fits.writeto', path=filename)
+        files()[filename] = {'content': self, 'gz': False}
 
 
 class _HDUL:
@@ -30,10 +30,10 @@ class _HDUL:
 
 
 def open(filename, cache=False, **kwargs):
-    fs = vprim.ghost().get('files', None)
-    if fs is None or filename not in fs:
+    fs = files()
+    if filename not in fs:
         raise FileNotFoundError(filename)
-    hdu = fs[filename]
+    hdu = fs[filename]['content']
     if not isinstance(hdu, BinTableHDU):
         raise OSError('not a FITS file')
     return _HDUL([hdu])
